@@ -16,7 +16,7 @@ import itertools
 import numpy as np
 
 import porepy as pp
-from engines.history import Op, run_history
+from engines.history import Keeper, Op, run_history
 from simkit.runner import Workload
 from simkit.trace import Trace, Violation
 
@@ -37,7 +37,7 @@ ASSUMPTIONS = [
     "gradient exactness is demanded for linear functions only (as stated); for general multilinear functions adaptive == static is demanded",
 ]
 PROBES = ["dim1", "dim2", "dim3", "point_on_vertex", "point_on_grid_line", "point_on_upper_boundary", "point_on_lower_boundary", "batch_revisits_cell",
-          "warm_batch", "partial_batch", "gradient_query", "linear_function", "shifted_base_point", "negative_indices", "query_buffer_reused_in_place", "external_values_mode", "known_vertices_reassigned", "vector_valued_function"]
+          "warm_batch", "partial_batch", "gradient_query", "linear_function", "shifted_base_point", "negative_indices", "query_buffer_reused_in_place", "external_values_mode", "known_vertices_reassigned", "vector_valued_function", "function_defined_on_box_only", "rejected_query_outside_box"]
 
 
 def make_function(ch, d, linear):
@@ -110,6 +110,9 @@ def run_history_c41(ch, tr: Trace) -> None:
         # "external" mode: the adaptive table has no function; the caller asks which vertices a query needs
         # (quadrature_points_from_coordinates), computes them and feeds them back (assign_values) before querying
         external = ch.flag(1, 3)
+        # the user's function may be defined on the box only and raise elsewhere; a query that strays outside is then
+        # rejected with the function's own exception - and must not poison later queries inside the box
+        guarded = (not external) and ch.flag(1, 3)
     tr.probe(f"dim{d}")
     if external:
         tr.probe("external_values_mode")
@@ -124,8 +127,22 @@ def run_history_c41(ch, tr: Trace) -> None:
     if vdim > 1:
         tr.probe("vector_valued_function")
     static = pp.InterpolationTable(low, high, npt, f, dim=vdim)
+    f_plain = f
+
+    class OutsideBox(Exception):
+        pass
+
+    def f_guarded(*x):
+        for i in range(d):
+            xi = np.asarray(x[i], dtype=float)
+            if np.any(xi < low[i] - 1.25 * h[i]) or np.any(xi > high[i] + 1.25 * h[i]):  # one cell of slack: the adaptive table has no box and touches the next vertex for points on the boundary
+                raise OutsideBox(f"function evaluated outside its box along axis {i}")
+        return f_plain(*x)
+
+    if guarded:
+        tr.probe("function_defined_on_box_only")
     try:
-        adaptive = pp.AdaptiveInterpolationTable(h.copy(), base_point=base.copy(), function=None if external else f, dim=vdim)
+        adaptive = pp.AdaptiveInterpolationTable(h.copy(), base_point=base.copy(), function=None if external else (f_guarded if guarded else f), dim=vdim)
     except Exception as e:  # noqa: BLE001
         raise Violation("adaptive_answers_every_point_in_box", f"constructing the adaptive table for a {vdim}-valued function raised {e!r}", "adaptive_constructor_raised")
     verts = np.array(list(itertools.product(*[np.linspace(low[i], high[i], npt[i]) for i in range(d)]))).T
@@ -133,6 +150,7 @@ def run_history_c41(ch, tr: Trace) -> None:
     tol = 1e-9 * scale
     tr.emit("config", d, "dyadic" if dyadic else "float", low.tolist(), h.tolist(), npt.tolist(), shift.tolist(), coefs)
     visited_cells: set = set()
+    keeper = Keeper(lambda label, where: Violation("table_exact_for_multilinear", f"the array returned by {label} changed under the caller's hands during {where}", "returned_array_changed_later"), limit=4)
     buf = [None]  # the caller's query buffer, possibly reused in place between calls
 
     def draw_points(n):
@@ -249,6 +267,9 @@ def run_history_c41(ch, tr: Trace) -> None:
             ys = static.interpolate(arg)
         except Exception as e:  # noqa: BLE001
             raise Violation("static_answers_every_point_in_box", f"static.interpolate({x.T.tolist()}) raised {e!r}", "static_interpolate_raised")
+        keeper.verify(f"interpolate({x.T.tolist()})")
+        keeper.keep(ya, f"adaptive.interpolate({x.T.tolist()})")
+        keeper.keep(ys, f"static.interpolate({x.T.tolist()})")
         ye = np.atleast_1d(f(*x)).reshape(-1)
         hc = hit_class(before, after, x)
         for k, v in fl.items():
@@ -290,6 +311,9 @@ def run_history_c41(ch, tr: Trace) -> None:
         except Exception as e:  # noqa: BLE001
             on_upper = bool(dyadic and np.any(x == high.reshape((-1, 1))))
             raise Violation("static_answers_every_point_in_box", f"static.gradient({x.T.tolist()}, axis={axis}) raised {e!r}", "static_gradient_raised_on_upper_boundary" if on_upper else "static_gradient_raised")
+        keeper.verify(f"gradient({x.T.tolist()}, axis={axis})")
+        keeper.keep(ga, f"adaptive.gradient({x.T.tolist()}, axis={axis})")
+        keeper.keep(gs, f"static.gradient({x.T.tolist()}, axis={axis})")
         ge = (np.atleast_1d(gradf(axis, *x)) * np.ones(n)).reshape(-1)
         hc = hit_class(before, after, x)
         tr.probe("gradient_query")
@@ -306,7 +330,31 @@ def run_history_c41(ch, tr: Trace) -> None:
         tr.state((min(after, 40), "grad", hc))
         cache_invariants("gradient")
 
-    ops = [Op("interpolate", 5, op_interp, core=True), Op("gradient", 3, op_grad)]
+    def op_outside():
+        """A batch with one point whose cell lies outside the box (the guarded function raises there) among valid points."""
+        n = ch.rng(1, 3)
+        x, _ = draw_points(n)
+        j = ch.draw(n)
+        ax = ch.draw(d)
+        x[ax, j] = (high[ax] + (2.5 + ch.unit()) * h[ax]) if ch.flag() else (low[ax] - (2.5 + ch.unit()) * h[ax])
+        try:
+            if ch.flag(2, 3):
+                adaptive.interpolate(x.copy())
+            else:
+                adaptive.gradient(x.copy(), ch.draw(d))
+        except OutsideBox:
+            tr.fault("rejected-call", "query_outside_box")
+            tr.probe("rejected_query_outside_box")
+            tr.op("outside", "rejected", x.T.tolist(), changing=False)
+            cache_invariants("a query rejected by the user's function (point outside the box)")
+            return
+        except Exception as e:  # noqa: BLE001  any other error is a rejection too; nothing is demanded of this call itself
+            tr.op("outside", "raised", type(e).__name__, changing=False)
+            cache_invariants("a query outside the box that raised")
+            return
+        tr.op("outside", "answered", x.T.tolist(), changing=False)
+
+    ops = [Op("interpolate", 5, op_interp, core=True), Op("gradient", 3, op_grad), Op("outside", 1, op_outside, enabled=lambda: guarded)]
     run_history(ch, tr, ops, 3, 16)
     tr.emit("end", int(adaptive._table._coords.shape[1]))
 
